@@ -46,6 +46,31 @@ def canvas(ctx, rule='K1'):
     return out
 
 
+def visibility_filter(fi, cl):
+    """cl is a closure term |item| self.layer(item.0).is_visible() with `self` the file frame_image works on"""
+    fx = fi.facts
+    if cl[0] != 'closure' or fx is None or cl[1] not in fx.by_path:
+        return False
+    cb = fx.by_path[cl[1]]
+    if cb.arg_count != 2:
+        return False
+    from terms import subst_closure
+    rt = subst_closure(res(cb).ret(), {}, cl)
+    if rt[0] == 'call' and rt[1] == 'asefile::layer::Layer::is_visible' and len(rt[2]) == 1:
+        ly = rt[2][0]
+        return ly[0] == 'call' and ly[1] == AF + 'layer' and is_param(ly[2][0], 1) and strip_casts(ly[2][1]) == ('field', ('param', 2, None), '0')
+    return False
+
+
+def gated_by_filter(fi, c):
+    """the cel handed to write_cel (call c) comes out of a .filter(visibility of its own layer)"""
+    cel = q.arg_terms(c)[2]
+    if cel[0] == 'field' and cel[2] == '1' and cel[1][0] == 'next':
+        src = q.unwrap_into_iter(cel[1][1])
+        return src[0] == 'call' and src[1] == 'std::iter::Iterator::filter' and len(src[2]) == 2 and visibility_filter(fi, src[2][1])
+    return False
+
+
 def cel_loop_item(fi, c):
     """how frame_image obtains the cel it passes to write_cel (call c) and which term is that cel's layer id:
        form A  for (layer_id, cel) in self.framedata.frame_cels(frame)            -> ('A', item.0, item)
@@ -55,6 +80,10 @@ def cel_loop_item(fi, c):
     cel = q.arg_terms(c)[2]
     if cel[0] == 'field' and cel[2] == '1' and cel[1][0] == 'next':
         src = q.unwrap_into_iter(cel[1][1])
+        # form A with the visibility gate moved into the iterator: frame_cels(frame).filter(|(layer_id, _)| self.layer(*layer_id).is_visible()).
+        # Only that filter is looked through; any other one would skip cels for another reason and is not this form
+        while src[0] == 'call' and src[1] == 'std::iter::Iterator::filter' and len(src[2]) == 2 and visibility_filter(fi, src[2][1]):
+            src = q.unwrap_into_iter(src[2][0])
         if src[0] == 'call' and src[1] == 'asefile::cel::CelsData::frame_cels' and is_param_path(src[2][0], 1, ['framedata']) \
                 and is_param(strip_casts(src[2][1]), 2):
             return 'A', ('field', cel[1], '0'), cel[1]
@@ -201,6 +230,9 @@ def gate(ctx, rule='K4'):
                 if ly[0] == 'call' and ly[1] == AF + 'layer' and is_param(ly[2][0], 1) and lid_want is not None:
                     # the layer asked is the layer of the cel being drawn: the same loop item's index (form A) / the same loop variable (form B)
                     ok = ok or strip_casts(ly[2][1]) == strip_casts(lid_want)
+        if not ok and form == 'A' and gated_by_filter(fi, c):
+            ok = True
+            desc.append('filter(|item| self.layer(item.0).is_visible()) on the cel iterator')
         ctx.inst(rule, fi.name, ok, 'write_cel in frame_image is %s by layer(item.0).is_visible() == true for the same loop item'
                  % ('guarded' if ok else 'NOT guarded'), c.span, key=fi.name + '|%s|gate' % rule, detail={'guards': desc})
 
@@ -402,8 +434,7 @@ def clip_bounds(b, bb, coord, axis_dims, img):
             lo = True
         if op == 'Lt' and is_dim(r_):
             hi = True
-    for cond, vals, a in q.guards(b, bb):
-        truth = q.bool_outcome(b, a, vals)
+    for cond, truth in q.deep_conds(b, bb):
         if cond[0] == 'call' and cond[1] == 'std::ops::Range::contains' and truth is True and strip_casts(cond[2][1]) == coord:
             rg = cond[2][0]
             if rg[0] == 'agg':
